@@ -138,6 +138,8 @@ type Driver struct {
 	stats     Stats
 	maxPaths  int
 	aborted   bool
+	xs        *XSample
+	xres      *XResult
 	funcsSeen map[string]bool
 	buildMu   sync.Mutex
 	start     time.Time
@@ -480,6 +482,7 @@ func (d *Driver) worker(id int) {
 		os.Exit(2)
 	}
 	defer solver.Close()
+	solver.xs = d.xs
 	tc := NewTermCtx()
 	rng := rand.New(rand.NewSource(d.seed + int64(id)))
 	for {
